@@ -118,7 +118,11 @@ func VerifC16_ClassicRoundTrip() {
 	var ms Matchers
 	names := []string{"foo", "bar_2"}
 	for i := 0; i < n; i++ {
-		v := vfString("value", vfChoice("len", maxLen+1))
+		ml := maxLen
+		if i > 0 {
+			ml = 2 // (the second matcher keeps the quick tier's length)
+		}
+		v := vfString("value", vfChoice("len", ml+1))
 		vfAssume(utf8.ValidString(v))
 		// '=~' patterns must compile: keep regex matchers on the plain operators'
 		// value space by only using the equality operators for arbitrary bytes
